@@ -5,6 +5,7 @@ CONSTANT Depth
 ValsM101 == {-1, 0, 1}
 Vals01 == {0, 1}
 StaleOps == {"setitem", "toenum", "refresh", "copy"}
+LitOps == {"setitem", "augadd", "imul", "bin", "mulraise", "value"}
 ValsM1012 == {-1, 0, 1, 2}
 LabelsInt == {0, 2}
 DepthBound == TLCGet("level") <= Depth
